@@ -17,6 +17,9 @@ tie   : T5      gen/sbx_translate.py: current source of is_internal_attribute / 
         K-gen   Model/SbxGen.show (gen m e) == routing skeleton of the real generated Python for
                 generated expressions (sandboxed / async / plain); scan of the real generated code
                 of generated templates for raw attribute / subscript / call on template values
+        K-fold  literal-rooted attribute / subscript chains ('abc'.__doc__, (1).__class__.__name__): the
+                optimized (constant-folding) compile renders what the unoptimized compile renders
+                (Model/SbxFold.as_const == run_chain), sandboxed and immutable, sync and async
 oracle: (API) a handed-out attribute value never has an underscore / internal name;
         (render) tracer data: the sentinel never appears, and an access to an unsafe name is
         indistinguishable from an access to a missing name unless it raises SecurityError
@@ -36,7 +39,9 @@ RULE = ("K-attr: 11 real objects (one per isinstance branch) x (dir(obj) + UNSAF
         "attribute exists. K-gen: random expression trees (depth <= 4) over Getattr / Getitem / Slice / Call / Filter / "
         "Test / operators in 3 modes + generated templates with expressions in every statement position. Render: 8 base "
         "objects x 24 private/internal + 5 public names x 33 access paths x {sync, async}; non-trivial = the attribute "
-        "exists on the base object and is unsafe.")
+        "exists on the base object and is unsafe. Literals: 10 template literals x 40 names x {dot, subscript, attr filter} single "
+        "steps + random chains of 2..3 names x 4 access forms x 6 wrappers, each compiled with and without the optimizer; "
+        "non-trivial = the chain contains a name that is unsafe for the object it is applied to.")
 
 # functions that are NOT translated (Gen_sbx_src.v covers is_internal_attribute, is_safe_attribute, getattr,
 # getitem): their canonical text stays pinned
@@ -91,14 +96,15 @@ def regenerate(ctx):
         ctx.broken.append("T1: the UNSAFE_* objects of the imported module differ from the source text")
     bad = [q for q in sbx_tables.shape_mismatches(facts) if q in SHAPES]
     try:
+        bad += sbx_tables.nodes_shape_mismatches(lib.SRC)
         bad += sbx_tables.compiler_shape_mismatches(lib.SRC, ("CodeGenerator.visit_Getattr", "CodeGenerator.visit_Getitem"))
     except sbx_tables.TranslatorError as e:
         bad.append(str(e))
     ctx.obligations += 1
-    ctx.obligation_names.append("shape of unsafe_undefined / wrap_str_format / get_field / compiler.visit_Getattr / visit_Getitem")
+    ctx.obligation_names.append("shape of unsafe_undefined / wrap_str_format / get_field / compiler.visit_Getattr / visit_Getitem / nodes.Getattr.as_const / Getitem.as_const")
     if bad:
         ctx.broken.append("T1: source shape differs from the modelled one: " + ", ".join(bad))
-        ctx.extra["shape_changed"] = {q: facts["shapes"][q] for q in bad}
+        ctx.extra["shape_changed"] = {q: facts["shapes"].get(q, "(see compiler.py / nodes.py)") for q in bad}
     else:
         ctx.discharged += 1
     v = f"""(* regenerated from {lib.SRC}/jinja2/sandbox.py by gen/sbx_tables.py *)
@@ -447,6 +453,123 @@ def judge_host_format(ctx, envs, case):
         close()
 
 
+# ------------------------------------------------------------------ literal-rooted chains (constant folding)
+LITERALS = [("'abc'", "abc"), ("''", ""), ("(1)", 1), ("(1.5)", 1.5), ("[1, 2]", [1, 2]), ("{'a': 1}", {"a": 1}),
+            ("(1, 2)", (1, 2)), ("true", True), ("none", None), ("'{0}'", "{0}")]
+LIT_UNSAFE = ["__class__", "__doc__", "__name__", "__qualname__", "__module__", "__mro__", "__base__", "__bases__", "__len__",
+              "__init__", "__subclasses__", "__dict__", "__self__", "__func__", "mro", "__add__", "__hash__", "__sizeof__",
+              "__dir__", "__reduce__", "__format__", "__text_signature__", "_x"]
+LIT_PUBLIC = ["upper", "real", "imag", "keys", "count", "index", "format", "numerator", "denominator", "conjugate", "items",
+              "bit_length", "strip", "title", "lower", "a", "nosuch"]
+LIT_FORMS = ("dot", "subscript", "attrf", "mixed")
+LIT_WRAP = {"print": "{{ %s }}", "defined": "{{ (%s) is defined }}", "strlen": "{{ (%s)|string|length }}",
+            "if": "{%% if %s %%}T{%% else %%}F{%% endif %%}", "set": "{%% set v = %s %%}{{ v }}",
+            "eq": "{%% if (%s) == 'str' %%}LEAK{%% endif %%}"}
+
+
+def lit_expr(lit, chain, form):
+    e = lit
+    for i, n in enumerate(chain):
+        f = form if form != "mixed" else ("dot" if i % 2 == 0 else "subscript")
+        if f == "dot":
+            e = f"({e}).{n}"
+        elif f == "subscript":
+            e = f"({e})['{n}']"
+        else:
+            e = f"(({e})|attr('{n}'))"
+    return e
+
+
+def first_unsafe_step(value, chain, form):
+    """index of the first step whose name is unsafe for the object it is applied to (walking the real objects
+    the way the access form does), or None"""
+    from jinja2 import sandbox as sb
+    obj = value
+    for i, n in enumerate(chain):
+        if n.startswith("_") or bool(sb.is_internal_attribute(obj, n)) or spec_internal(obj, n):
+            return i
+        f = form if form != "mixed" else ("dot" if i % 2 == 0 else "subscript")
+        nxt = None
+        order = ("item", "attr") if f == "subscript" else (("attr",) if f == "attrf" else ("attr", "item"))
+        for how in order:
+            try:
+                nxt = (getattr(obj, n),) if how == "attr" else (obj[n],)
+                break
+            except Exception:  # noqa: BLE001
+                continue
+        if nxt is None:
+            return None
+        obj = nxt[0]
+    return None
+
+
+def make_literal_envs():
+    from jinja2.sandbox import ImmutableSandboxedEnvironment, SandboxedEnvironment
+    envs = {}
+    for cname, cls in (("sandboxed", SandboxedEnvironment), ("immutable", ImmutableSandboxedEnvironment)):
+        for mode in ("sync", "async"):
+            for opt in (True, False):
+                envs[(cname, mode, opt)] = (cls(enable_async=(mode == "async"), optimized=opt), {})
+    return envs
+
+
+def judge_literal(ctx, envs, case):
+    """(a) an unsafe step of a literal-rooted chain is SecurityError or indistinguishable from a missing name;
+    (b) the optimized (constant-folding) compile renders what the unoptimized one renders"""
+    lit, value = LITERALS[case["literal"]]
+    chain, form, wrap = case["chain"], case["form"], case["wrap"]
+    key = (case["env"], case["mode"])
+    src = LIT_WRAP[wrap] % lit_expr(lit, chain, form)
+    case["template"] = src
+    out_opt = render_outcome(*envs[key + (True,)], src, {})
+    out_rt = render_outcome(*envs[key + (False,)], src, {})
+    case["outcome"] = out_opt[:120]
+    i = first_unsafe_step(value, chain, form)
+    case["unsafe_step"] = i
+    of = None
+    if i is not None:
+        ctl_chain = list(chain)
+        ctl_chain[i] = "nosuchattr_zz"
+        ctl = LIT_WRAP[wrap] % lit_expr(lit, ctl_chain, form)
+        for label, out, opt in (("optimized", out_opt, True), ("unoptimized", out_rt, False)):
+            if out != "SecurityError" and out != render_outcome(*envs[key + (opt,)], ctl, {}):
+                of = (f"the {label} compile of {src!r} exposes the unsafe attribute {chain[i]!r} of a literal: {out[:80]!r} "
+                      f"(a missing name gives {render_outcome(*envs[key + (opt,)], ctl, {})[:60]!r})")
+                break
+    if of:
+        reject_once(ctx, case, of, f"C17:literal:{form}:{chain[i]}")
+        return False
+    if out_opt != out_rt:
+        ctx.model_mismatch("K-fold constant folding == run-time lookup (Model/SbxFold.as_const)", case, out_rt[:100], out_opt[:100], None)
+        return False
+    return True
+
+
+def literal_stream(ctx):
+    envs = make_literal_envs()
+    rng = ctx.rng
+    cases = []
+    for li in range(len(LITERALS)):
+        for n in LIT_UNSAFE + LIT_PUBLIC:
+            for form in ("dot", "subscript", "attrf"):
+                for env, mode in (("sandboxed", "sync"), ("immutable", "async")):
+                    cases.append({"kind": "literal", "literal": li, "chain": [n], "form": form, "wrap": "print", "env": env, "mode": mode})
+    for _ in range(ctx.size(1200, 12000)):
+        depth = rng.randint(2, 3)
+        chain = [rng.choice(LIT_UNSAFE + LIT_PUBLIC + LIT_UNSAFE) for _ in range(depth)]
+        cases.append({"kind": "literal", "literal": rng.randrange(len(LITERALS)), "chain": chain, "form": rng.choice(LIT_FORMS),
+                      "wrap": rng.choice(list(LIT_WRAP)), "env": rng.choice(["sandboxed", "immutable"]),
+                      "mode": rng.choice(["sync", "async"])})
+    for case in cases:
+        ok = judge_literal(ctx, envs, case)
+        nontriv = case.get("unsafe_step") is not None
+        ctx.case(sample=case if nontriv and len(case["chain"]) == 2 and len(ctx.samples) < 6 else None,
+                 key=("lit", case["literal"], tuple(case["chain"]), case["form"], case["wrap"], case["env"], case["mode"]) if nontriv else None)
+        ctx.count("literal_chain_%d" % len(case["chain"]))
+        if ok:
+            ctx.validated()
+
+
 def make_render_envs():
     from jinja2.sandbox import SandboxedEnvironment
     return {"sync": (SandboxedEnvironment(), {}), "async": (SandboxedEnvironment(enable_async=True), {})}
@@ -488,6 +611,7 @@ def run(ctx):
             ctx.validated()
 
 
+    literal_stream(ctx)
     for path, mode in itertools.product(ob.HOST_FORMAT, ("sync", "async")):
         case = {"kind": "host-format", "path": path, "mode": mode}
         ok = judge_host_format(ctx, envs, case)
@@ -507,6 +631,8 @@ def replay(ctx, data):
     kind = case.get("kind")
     if kind == "render":
         judge_render(ctx, make_render_envs(), {k: case[k] for k in ("kind", "base", "name", "path", "mode")})
+    elif kind == "literal":
+        judge_literal(ctx, make_literal_envs(), {k: case[k] for k in ("kind", "literal", "chain", "form", "wrap", "env", "mode")})
     elif kind == "host-format":
         judge_host_format(ctx, make_render_envs(), {k: case[k] for k in ("kind", "path", "mode")})
     elif kind == "access":
